@@ -1,9 +1,10 @@
 (* Proofs/LibAll.v — the premises the interpreter theorems put on the library (Proofs/Fuel.v lib_fuel_monotone,
    Proofs/Blind.v lib_count_blind, Proofs/C09.v lib_monotone and lib_lockstep) hold for the combined library
-   Model/LibAll.v libfull: LibCore overlaid with the lifted array / object / string functions of LibSeq. *)
+   Model/LibAll.v libfull: LibCore, arraySort (which CALLS BACK: the premises are about exactly that) and the lifted
+   array / object / string functions of LibSeq. *)
 From Coq Require Import List ZArith Lia.
-From BS Require Import Model.Base Model.Num Model.Arith Model.ExprParser Model.Script Model.Interp Model.LibCore Model.LibAll
-                       Proofs.Fuel Proofs.C01 Proofs.Blind Proofs.C09.
+From BS Require Import Model.Base Model.Num Model.Arith Model.ExprParser Model.Script Model.Interp Model.LibCore Model.LibCall Model.LibAll
+                       Proofs.Fuel Proofs.C01 Proofs.Blind Proofs.C09 Proofs.LibCall.
 Local Open Scope Z_scope.
 
 (* the lifted functions do not see the statement counter and leave it alone *)
@@ -23,35 +24,183 @@ Proof.
   destruct r; try destruct (c_debug cfg); reflexivity.
 Qed.
 
-Lemma libfull_frame cfg cb name args w k :
-  libfull cfg cb name args (upd_count w k) = (fst (libfull cfg cb name args w), upd_count (snd (libfull cfg cb name args w)) k).
+
+(* ---- arraySort: instances of Proofs/LibCall.v lib_sort_rel ---- *)
+Lemma set_arr_count w l x : w_count (set_arr w l x) = w_count w.
+Proof. reflexivity. Qed.
+
+Lemma lib_sort_monotone cfg (cb : caller) : (forall fv a w, w_count w <= w_count (snd (cb fv a w))) ->
+  forall args w, w_count w <= w_count (snd (lib_sort cfg cb args w)).
 Proof.
-  unfold libfull. destruct (str_mem name core_names); [apply libcore_blind|].
-  destruct (str_mem name Q.modelled_functions); [apply lift_seq_frame|reflexivity].
+  intros Hcb args w.
+  pose (Le := fun a b : world => w_count a <= w_count b).
+  assert (Le_refl : forall a, Le a a) by (intro; unfold Le; lia).
+  assert (Le_trans : forall a b c, Le a b -> Le b c -> Le a c) by (unfold Le; intros; lia).
+  assert (Hstep : forall f x y w0, Le w0 (snd (islt_cb cb f x y w0))).
+  { intros f x y w0. unfold islt_cb, Le. specialize (Hcb f [x; y] w0). destruct (cb f [x; y] w0) as [o w1]. cbn [snd] in Hcb.
+    destruct o as [v| | | | |]; try exact Hcb. destruct v; exact Hcb. }
+  assert (Hcmp : forall x y w0, Le w0 (snd (islt_cmp x y w0))).
+  { intros x y w0. unfold islt_cmp, Le. destruct (vcompare (cmp_fuel w0) w0 x y) as [[| |]|]; cbn; lia. }
+  unfold lib_sort.
+  destruct (validate w [A TArray; AFunN] args) as [va| |]; try (cbn; lia).
+  destruct va as [|[a0|] va]; try (cbn; lia).
+  destruct a0 as [| | | | |l| | |]; try (cbn; lia).
+  destruct va as [|[f|] va]; try (cbn; lia).
+  destruct va; try (cbn; lia).
+  assert (Hpure : w_count w <= w_count (snd (match small_sort islt_cmp (get_arr w l) w with
+     | (cur, None, w1) => (LVal (VArr l), set_arr w1 l cur) | (cur, Some r, w1) => (r, set_arr w1 l cur) end))).
+  { pose proof (small_sort_Le islt_cmp Le Le_refl Le_trans Hcmp (get_arr w l) w) as H.
+    destruct (small_sort islt_cmp (get_arr w l) w) as [[cur s] w1]. unfold Le in H. cbn [snd] in H.
+    destruct s; cbn [snd]; rewrite set_arr_count; exact H. }
+  assert (Hcall : w_count w <= w_count (snd (
+     if Nat.leb 64 (length (get_arr w l)) then (LOracle, w) else
+     match small_sort (islt_cb cb f) (get_arr w l) (set_arr w l []) with
+     | (cur, Some r, w1) => match r with LRaise _ => if c_debug cfg then (LOracle, w1) else (r, set_arr w1 l cur) | _ => (r, set_arr w1 l cur) end
+     | (cur, None, w1) => if is_nil (get_arr w1 l) then (LVal (VArr l), set_arr w1 l cur)
+                          else if c_debug cfg then (LOracle, w1) else (LRaise (U "list modified during sort"), set_arr w1 l cur)
+     end))).
+  { destruct (Nat.leb 64 (length (get_arr w l))); [cbn; lia|].
+    pose proof (small_sort_Le (islt_cb cb f) Le Le_refl Le_trans (Hstep f) (get_arr w l) (set_arr w l [])) as H.
+    destruct (small_sort (islt_cb cb f) (get_arr w l) (set_arr w l [])) as [[cur s] w1]. unfold Le in H. cbn [snd] in H.
+    rewrite set_arr_count in H.
+    destruct s as [r|].
+    - destruct r; cbn [snd]; try (rewrite set_arr_count; exact H). destruct (c_debug cfg); cbn [snd]; [exact H|rewrite set_arr_count; exact H].
+    - destruct (is_nil (get_arr w1 l)); cbn [snd]; [rewrite set_arr_count; exact H|].
+      destruct (c_debug cfg); cbn [snd]; [exact H|rewrite set_arr_count; exact H]. }
+  destruct f; try exact Hcall. exact Hpure.
 Qed.
 
-Lemma libfull_count cfg cb name args w : w_count (snd (libfull cfg cb name args w)) = w_count w.
+(* a stop of the comparator call shows as the matching stop of the comparison *)
+Lemma islt_cb_eq cb1 cb2 f x y w : cb1 f [x; y] w = cb2 f [x; y] w -> islt_cb cb1 f x y w = islt_cb cb2 f x y w.
+Proof. unfold islt_cb. intros ->. reflexivity. Qed.
+
+Lemma lib_sort_fuel_monotone cfg (cb1 cb2 : caller) : (forall fv a w, F2 (cb1 fv a w) (cb2 fv a w)) ->
+  forall args w, FL (lib_sort cfg cb1 args w) (lib_sort cfg cb2 args w).
 Proof.
-  unfold libfull. destruct (str_mem name core_names); [apply libcore_count|].
-  destruct (str_mem name Q.modelled_functions); [apply lift_seq_count|reflexivity].
+  intros Hcb args w.
+  pose (Dv := fun (r : lres) (_ : world) => r = LFuel).
+  pose (Le := fun _ _ : world => True).
+  assert (A1 : forall a, Le a a) by (intro; exact I).
+  assert (A2 : forall a b c, Le a b -> Le b c -> Le a c) by (intros; exact I).
+  assert (A3 : forall fv a w0, Le w0 (snd (cb2 fv a w0))) by (intros; exact I).
+  assert (A4 : forall r a b, Dv r a -> Le a b -> Dv r b) by (intros r a b H _; exact H).
+  assert (A5 : forall r w0 l x, Dv r w0 -> Dv r (set_arr w0 l x)) by (intros r w0 l x H; exact H).
+  assert (A6 : forall r w0, Dv r w0 -> match r with LRaise _ => False | _ => True end) by (intros r w0 H; unfold Dv in H; subst r; exact I).
+  assert (A7 : forall w0 wm specs a, w0 = wm -> validate w0 specs a = validate wm specs a) by (intros; subst; reflexivity).
+  assert (A8 : forall w0 wm l, w0 = wm -> get_arr w0 l = get_arr wm l) by (intros; subst; reflexivity).
+  assert (A9 : forall w0 wm l x, w0 = wm -> set_arr w0 l x = set_arr wm l x) by (intros; subst; reflexivity).
+  assert (A10 : forall w0 wm x y, w0 = wm -> vcompare (cmp_fuel w0) w0 x y = vcompare (cmp_fuel wm) wm x y) by (intros; subst; reflexivity).
+  assert (A11 : forall f x y w0 wm, w0 = wm ->
+    (fst (islt_cb cb1 f x y w0) = fst (islt_cb cb2 f x y wm) /\ snd (islt_cb cb1 f x y w0) = snd (islt_cb cb2 f x y wm))
+    \/ (exists r, fst (islt_cb cb1 f x y w0) = CStop r /\ Dv r (snd (islt_cb cb2 f x y wm)))).
+  { intros f x y w0 wm <-. destruct (Hcb f [x; y] w0) as [E|E].
+    - left. rewrite (islt_cb_eq _ _ _ _ _ _ E). split; reflexivity.
+    - right. exists LFuel. split; [|reflexivity]. unfold islt_cb. destruct (cb1 f [x; y] w0) as [o w1]. cbn [fst] in E. subst o. reflexivity. }
+  destruct (lib_sort_rel cfg cb1 cb2 eq Dv Le A1 A2 A3 A4 A5 A6 A7 A8 A9 A10 A11 args w w eq_refl) as [[H1 H2]|H].
+  - left. destruct (lib_sort cfg cb1 args w), (lib_sort cfg cb2 args w). cbn [fst snd] in *. subst. reflexivity.
+  - right. exact H.
 Qed.
 
-(* no function of the combined library calls back *)
-Lemma libfull_no_callback cfg cb1 cb2 name args w : libfull cfg cb1 name args w = libfull cfg cb2 name args w.
+Lemma lib_sort_lockstep cfg (cb1 cb2 : caller) :
+  (forall fv a w, Rel2 cfg (cb1 fv a w) (cb2 fv a w)) -> (forall fv a w, w_count w <= w_count (snd (cb2 fv a w))) ->
+  forall args w, RelL cfg (lib_sort cfg cb1 args w) (lib_sort cfg cb2 args w).
+Proof.
+  intros Hcb Hm args w.
+  pose (Dv := fun (r : lres) (w2 : world) => r = LRt (msg_exceeded (c_max cfg)) /\ c_max cfg < w_count w2).
+  pose (Le := fun a b : world => w_count a <= w_count b).
+  assert (A1 : forall a, Le a a) by (intro; unfold Le; lia).
+  assert (A2 : forall a b c, Le a b -> Le b c -> Le a c) by (unfold Le; intros; lia).
+  assert (A3 : forall fv a w0, Le w0 (snd (cb2 fv a w0))) by (intros; apply Hm).
+  assert (A4 : forall r a b, Dv r a -> Le a b -> Dv r b) by (unfold Dv, Le; intros r a b [Hr Hc] Hab; split; [exact Hr|lia]).
+  assert (A5 : forall r w0 l x, Dv r w0 -> Dv r (set_arr w0 l x)) by (intros r w0 l x H; exact H).
+  assert (A6 : forall r w0, Dv r w0 -> match r with LRaise _ => False | _ => True end) by (intros r w0 [H _]; subst r; exact I).
+  assert (A7 : forall w0 wm specs a, w0 = wm -> validate w0 specs a = validate wm specs a) by (intros; subst; reflexivity).
+  assert (A8 : forall w0 wm l, w0 = wm -> get_arr w0 l = get_arr wm l) by (intros; subst; reflexivity).
+  assert (A9 : forall w0 wm l x, w0 = wm -> set_arr w0 l x = set_arr wm l x) by (intros; subst; reflexivity).
+  assert (A10 : forall w0 wm x y, w0 = wm -> vcompare (cmp_fuel w0) w0 x y = vcompare (cmp_fuel wm) wm x y) by (intros; subst; reflexivity).
+  assert (A11 : forall f x y w0 wm, w0 = wm ->
+    (fst (islt_cb cb1 f x y w0) = fst (islt_cb cb2 f x y wm) /\ snd (islt_cb cb1 f x y w0) = snd (islt_cb cb2 f x y wm))
+    \/ (exists r, fst (islt_cb cb1 f x y w0) = CStop r /\ Dv r (snd (islt_cb cb2 f x y wm)))).
+  { intros f x y w0 wm <-. destruct (Hcb f [x; y] w0) as [E|[E1 E2]].
+    - left. rewrite (islt_cb_eq _ _ _ _ _ _ E). split; reflexivity.
+    - right. exists (LRt (msg_exceeded (c_max cfg))). split.
+      + unfold islt_cb. destruct (cb1 f [x; y] w0) as [o w1]. cbn [fst] in E1. subst o. reflexivity.
+      + split; [reflexivity|]. unfold islt_cb. destruct (cb2 f [x; y] w0) as [o w2]. cbn [snd] in *.
+        destruct o as [v| | | | |]; try exact E2. destruct v; exact E2. }
+  destruct (lib_sort_rel cfg cb1 cb2 eq Dv Le A1 A2 A3 A4 A5 A6 A7 A8 A9 A10 A11 args w w eq_refl) as [[H1 H2]|H].
+  - left. destruct (lib_sort cfg cb1 args w), (lib_sort cfg cb2 args w). cbn [fst snd] in *. subst. reflexivity.
+  - right. exact H.
+Qed.
+
+Lemma weq_set_arr w wm l x : weq w wm -> weq (set_arr w l x) (set_arr wm l x).
+Proof. intros H. rewrite (weq_repr _ _ H). reflexivity. Qed.
+
+Lemma lib_sort_count_blind cfg (cb1 cb2 : caller) : (forall fv a w wm, weq w wm -> B2 (cb1 fv a w) (cb2 fv a wm)) ->
+  forall args w wm, weq w wm -> BL (lib_sort cfg cb1 args w) (lib_sort cfg cb2 args wm).
+Proof.
+  intros Hcb args w wm Hw.
+  pose (Dv := fun (_ : lres) (_ : world) => False).
+  pose (Le := fun _ _ : world => True).
+  assert (A1 : forall a, Le a a) by (intro; exact I).
+  assert (A2 : forall a b c, Le a b -> Le b c -> Le a c) by (intros; exact I).
+  assert (A3 : forall fv a w0, Le w0 (snd (cb2 fv a w0))) by (intros; exact I).
+  assert (A4 : forall r a b, Dv r a -> Le a b -> Dv r b) by (intros r a b H _; exact H).
+  assert (A5 : forall r w0 l x, Dv r w0 -> Dv r (set_arr w0 l x)) by (intros r w0 l x H; exact H).
+  assert (A6 : forall r w0, Dv r w0 -> match r with LRaise _ => False | _ => True end) by (intros r w0 H; destruct H).
+  assert (A7 : forall w0 wm0 specs a, weq w0 wm0 -> validate w0 specs a = validate wm0 specs a).
+  { intros w0 wm0 specs a H0. rewrite (weq_repr _ _ H0). symmetry. apply validate_blind. }
+  assert (A8 : forall w0 wm0 l, weq w0 wm0 -> get_arr w0 l = get_arr wm0 l).
+  { intros w0 wm0 l H0. unfold get_arr. destruct (weq_fields _ _ H0) as (_ & Ha & _). rewrite Ha. reflexivity. }
+  assert (A9 : forall w0 wm0 l x, weq w0 wm0 -> weq (set_arr w0 l x) (set_arr wm0 l x)) by (intros; apply weq_set_arr; assumption).
+  assert (A10 : forall w0 wm0 x y, weq w0 wm0 -> vcompare (cmp_fuel w0) w0 x y = vcompare (cmp_fuel wm0) wm0 x y).
+  { intros w0 wm0 x y H0. rewrite (weq_repr _ _ H0). change (cmp_fuel (upd_count w0 (w_count wm0))) with (cmp_fuel w0).
+    symmetry. apply vcompare_blind. }
+  assert (A11 : forall f x y w0 wm0, weq w0 wm0 ->
+    (fst (islt_cb cb1 f x y w0) = fst (islt_cb cb2 f x y wm0) /\ weq (snd (islt_cb cb1 f x y w0)) (snd (islt_cb cb2 f x y wm0)))
+    \/ (exists r, fst (islt_cb cb1 f x y w0) = CStop r /\ Dv r (snd (islt_cb cb2 f x y wm0)))).
+  { intros f x y w0 wm0 H0. left. destruct (Hcb f [x; y] w0 wm0 H0) as [Ho Hw1]. unfold islt_cb.
+    destruct (cb1 f [x; y] w0) as [o1 w1]. destruct (cb2 f [x; y] wm0) as [o2 w2]. cbn [fst snd] in *. subst o2.
+    destruct o1 as [v| | | | |]; try (split; [reflexivity|exact Hw1]). destruct v; split; try reflexivity; exact Hw1. }
+  destruct (lib_sort_rel cfg cb1 cb2 weq Dv Le A1 A2 A3 A4 A5 A6 A7 A8 A9 A10 A11 args w wm Hw) as [H|H]; [exact H|destruct H].
+Qed.
+
+(* ---- the combined library ---- *)
+Lemma libfull_unfold cfg cb name args w :
+  libfull cfg cb name args w =
+  if str_mem name core_names then libcore cfg cb name args w
+  else if op_is name "arraySort" then lib_sort cfg cb args w
+  else if str_mem name Q.modelled_functions then lift_seq cfg name args w else (LOracle, w).
 Proof. reflexivity. Qed.
 
 Theorem libfull_fuel_monotone cfg : lib_fuel_monotone (libfull cfg).
-Proof. intros cb1 cb2 _ name args w. left. apply libfull_no_callback. Qed.
+Proof.
+  intros cb1 cb2 Hcb name args w. rewrite !libfull_unfold.
+  destruct (str_mem name core_names); [left; reflexivity|].
+  destruct (op_is name "arraySort"); [apply lib_sort_fuel_monotone; exact Hcb|]. left. reflexivity.
+Qed.
 
 Theorem libfull_monotone cfg : lib_monotone (libfull cfg).
-Proof. intros cb _ name args w. rewrite libfull_count. lia. Qed.
+Proof.
+  intros cb Hcb name args w. rewrite libfull_unfold.
+  destruct (str_mem name core_names); [rewrite libcore_count; lia|].
+  destruct (op_is name "arraySort"); [apply lib_sort_monotone; exact Hcb|].
+  destruct (str_mem name Q.modelled_functions); [rewrite lift_seq_count; lia|cbn; lia].
+Qed.
 
 Theorem libfull_lockstep cfg : lib_lockstep (libfull cfg) cfg.
-Proof. intros cb1 cb2 _ _ name args w. left. apply libfull_no_callback. Qed.
+Proof.
+  intros cb1 cb2 Hcb Hm name args w. rewrite !libfull_unfold.
+  destruct (str_mem name core_names); [left; reflexivity|].
+  destruct (op_is name "arraySort"); [apply lib_sort_lockstep; assumption|]. left. reflexivity.
+Qed.
 
 Theorem libfull_count_blind cfg : lib_count_blind (libfull cfg).
 Proof.
-  intros cb1 cb2 _ name args w wm Hw. rewrite (weq_repr _ _ Hw). rewrite libfull_frame.
-  rewrite (libfull_no_callback cfg cb1 cb2 name args w).
-  split; [reflexivity|]. cbn [snd]. apply weq_upd.
+  intros cb1 cb2 Hcb name args w wm Hw. rewrite !libfull_unfold.
+  destruct (str_mem name core_names); [apply (libcore_count_blind cfg cb1 cb2 Hcb name args w wm Hw)|].
+  destruct (op_is name "arraySort"); [apply lib_sort_count_blind; assumption|].
+  rewrite (weq_repr _ _ Hw).
+  destruct (str_mem name Q.modelled_functions).
+  - rewrite lift_seq_frame. split; [reflexivity|]. cbn [snd]. apply weq_upd.
+  - split; [reflexivity|]. cbn [snd]. apply weq_upd.
 Qed.
